@@ -56,11 +56,16 @@ JanetSlot wl_value_stub(JanetFopts opts, Janet x) {
     wl_value_calls++;
     return s;
 }
-int wl_nil_form_stub(Janet x, Janet *capture, uint32_t fun_tag) { return 0; }
+/* the (= nil x) / (not= nil x) condition shortcuts: the condition may be of either form (not both) */
+static int wl_form_eq, wl_form_neq;
+int wl_nil_form_stub(Janet x, Janet *capture, uint32_t fun_tag) { return fun_tag == JANET_FUN_EQ ? wl_form_eq : fun_tag == JANET_FUN_NEQ ? wl_form_neq : 0; }
+static int wl_si_calls; static uint8_t wl_si_op[4];
 void wl_freeslot_stub(JanetCompiler *c, JanetSlot s) {}
 /* contract of janetc_emit_si: emits the instruction (after possibly one move for a far slot) and returns ITS index; the
  * jump field is zero so that the caller can OR the offset in */
 int32_t wl_emit_si_stub(JanetCompiler *c, uint8_t op, JanetSlot s, int16_t imm, int wr) {
+    if (wl_si_calls < 4) wl_si_op[wl_si_calls] = op;
+    wl_si_calls++;
     if (nd_int()) janetc_emit(c, (nd_u32() << 8) | JOP_MOVE_NEAR);
     int32_t label = janet_v_count(c->buffer);
     janetc_emit(c, (uint32_t) op | (3u << 8) | ((uint32_t)(uint16_t) imm << 16));
@@ -109,7 +114,8 @@ void h_while(void) {
     Janet argv[3];
     for (int i = 0; i < 3; i++) { argv[i].type = JANET_NIL; argv[i].as.u64 = (uint64_t) i; }      /* form identity = index */
     wl_cond_constant = nd_int() & 1;
-    wl_value_calls = wl_popdef_calls = wl_closure_in_first = wl_nemitted = 0;
+    wl_value_calls = wl_popdef_calls = wl_closure_in_first = wl_nemitted = wl_si_calls = 0;
+    wl_form_eq = nd_int() & 1; wl_form_neq = wl_form_eq ? 0 : (nd_int() & 1);
     JanetFopts opts; opts.compiler = &wl_c; opts.flags = 0; opts.hint.flags = 0; opts.hint.index = 0; opts.hint.envindex = -1; opts.hint.constant.type = JANET_NIL; opts.hint.constant.as.u64 = 0;
     janetc_while(opts, argn, argv);
 
@@ -117,6 +123,13 @@ void h_while(void) {
     __CPROVER_assert(wl_c.scope == &wl_outer && wl_outer.child == (JanetScope *)0, "comp.while: the loop's scope is popped; compilation continues in the enclosing scope");
     __CPROVER_assert(n >= WL_PRE && wl_c.buffer[0] == pre[0] && wl_c.buffer[1] == pre[1], "comp.while: code emitted before the loop is untouched");
     __CPROVER_assert(janet_v_count(wl_c.mapbuffer) == n, "comp.while: the source map stays in step with the code");
+    /* a constant condition that is false for the loop's test: (= nil <non-nil constant>) - the loop never executes */
+    int never = wl_cond_constant && wl_form_eq;
+    if (never) {
+        __CPROVER_assert(wl_popdef_calls == 0 && wl_si_calls == 0 && wl_value_calls == 1 && !(wl_outer.flags & JANET_SCOPE_CLOSURE), "comp.while: a loop whose constant condition fails compiles no body and no jumps");
+        REACH("while: never executes");
+        return;
+    }
     if (wl_closure_in_first) {
         __CPROVER_assert(wl_popdef_calls == 1 && wl_scope_at_popdef_is_function, "comp.while: a loop whose body creates a closure is recompiled as a function");
         __CPROVER_assert(wl_selfcall_ok, "comp.while: the loop function iterates by a tail call to itself");
@@ -125,6 +138,13 @@ void h_while(void) {
                          (wl_c.buffer[WL_PRE + 1] & 0xFF) == JOP_CALL && ((wl_c.buffer[WL_PRE + 1] >> 16) & 0xFF) == ((wl_c.buffer[WL_PRE] >> 8) & 0xFF),
                          "comp.while: the loop function is instantiated from its definition and called");
         __CPROVER_assert(wl_outer.flags & JANET_SCOPE_CLOSURE, "comp.while: the enclosing scope is marked as creating a closure (an enclosing loop must become a function too)");
+        if (!wl_cond_constant) {
+            /* both compilations test the SAME condition: the jump loop leaves when the test fails (first emit), the function
+             * version skips its `return nil` when the test holds (second emit) - complementary opcodes of one test */
+            uint8_t leave = wl_si_op[0], stay = wl_si_op[1];
+            __CPROVER_assert(wl_si_calls == 2 && ((leave == JOP_JUMP_IF_NOT && stay == JOP_JUMP_IF) || (leave == JOP_JUMP_IF_NOT_NIL && stay == JOP_JUMP_IF_NIL) || (leave == JOP_JUMP_IF_NIL && stay == JOP_JUMP_IF_NOT_NIL)),
+                             "comp.while: recompiled as a function the loop keeps its condition (same test, nil-ness tests included)");
+        }
         REACH("while with closure: compiled as function");
     } else {
         __CPROVER_assert(wl_popdef_calls == 0, "comp.while: a loop without closures stays a jump loop");
@@ -144,7 +164,7 @@ void h_while(void) {
         if (!wl_cond_constant) {
             /* the conditional exit: the one instruction whose opcode is the exit test written by janetc_emit_si */
             int32_t j = nd_i32();
-            __CPROVER_assume(j >= WL_PRE && j < n && (wl_c.buffer[j] & 0xFF) == JOP_JUMP_IF_NOT && ((wl_c.buffer[j] >> 8) & 0xFF) == 3);
+            __CPROVER_assume(j >= WL_PRE && j < n && (wl_c.buffer[j] & 0xFF) == wl_si_op[0] && ((wl_c.buffer[j] >> 8) & 0xFF) == 3);
             int is_body = 0;
             for (int q = 0; q < 16; q++) if (q < wl_nemitted && wl_emit_at[q] == j) is_body = 1;
             if (!is_body) {
@@ -153,6 +173,8 @@ void h_while(void) {
             }
         }
         __CPROVER_assert(!(wl_outer.flags & JANET_SCOPE_CLOSURE), "comp.while: no closure flag appears from nowhere");
+        if (!wl_cond_constant)
+            __CPROVER_assert(wl_si_op[0] == (wl_form_eq ? JOP_JUMP_IF_NOT_NIL : wl_form_neq ? JOP_JUMP_IF_NIL : JOP_JUMP_IF_NOT), "comp.while: the loop is left when its condition fails: (= nil x) loops while x is nil, (not= nil x) while it is not, otherwise while truthy");
         REACH("while without closure: jump loop");
     }
 }
